@@ -20,11 +20,15 @@ def natural : Cmp := fun a b => if a < b then -1 else if a = b then 0 else 1
 def div3 : Cmp := fun a b => natural (Int.tdiv a 3) (Int.tdiv b 3)
 /-- descending order -/
 def rev : Cmp := fun a b => natural b a
+/-- the idiomatic `return a - b`: results of any magnitude, only the sign matters (the harness keeps
+    the elements small under this comparator, so Go's subtraction does not overflow) -/
+def diff : Cmp := fun a b => a - b
 
 def ofName : String → Option Cmp
   | "nat" => some natural
   | "div3" => some div3
   | "rev" => some rev
+  | "diff" => some diff
   | _ => none
 
 end Ekit.Cmp
